@@ -15,7 +15,8 @@ MANIFEST = dict(
          "unchanged, size unchanged) or leave the client block untouched, and send at most retry / 1+budget requests; on a fault-free network the transfer "
          "succeeds for every start and every positive length (faultfree_success, full statement since the fix of D1). The simulator's per-segment arithmetic "
          "is translated from the source on every run; the assemblers are hand models tied by differential correspondence with the real classes driven "
-         "by the real simulator's segment handlers through real STATV encode/decode under seeded fault streams.",
+         "by the real simulator's segment handlers through real STATV encode/decode under seeded fault streams."
+         " Since session 3: one long-lived simulator built by its real constructor serves the whole run; segments travel framed and are unwrapped by the real packet handler; the spa block carries the transport's own tags; an identical request repeated after the block changed must be served with the current bytes.",
     note="Trusted: Lean kernel, translator (cross-checked by sweeping (start,len) against the real simulator's queued segments), correspondence harness "
          "(virtual-time loop for the async client; stepped engine with patched clock for the threaded one). Datagram corruption and late segments of a "
          "different transfer window are outside the fault model (as in the property). Lock / polling / timeout timing is C06.",
